@@ -225,6 +225,25 @@ theorem partLoop_spec (lt : α → α → Bool) (hst : StrictTotal lt) (p : α) 
 
 
 
+/-- two sorted parts `[a, R)` and `[L, b)` with `R ≤ L`, everything before `L` being `≤ p` and everything from `R` on
+being `≥ p`, form a sorted range `[a, b)` -/
+theorem sorted_join (lt : α → α → Bool) (hst : StrictTotal lt) {p : α} {ys : List α} {a b L R : Nat} (hRL : R ≤ L)
+    (hSA : SortedR lt ys a R) (hSB : SortedR lt ys L b) (hLe : LeP lt p ys a L) (hGe : GeP lt p ys R b) :
+    SortedR lt ys a b := by
+  intro i j x y h1 h2 h3 hx hy
+  by_cases hjR : j < R
+  · exact hSA i j x y h1 h2 hjR hx hy
+  · by_cases hiL : L ≤ i
+    · exact hSB i j x y hiL h2 h3 hx hy
+    · have hxp := hLe i x h1 (by omega) hx
+      have hyp := hGe j y (by omega) h3 hy
+      cases hyx : lt y x
+      · rfl
+      · rcases hst.tri x p with h | h | h
+        · rw [hst.trans y x _ hyx h] at hyp; cases hyp
+        · rw [h] at hyx; rw [hyx] at hyp; cases hyp
+        · rw [h] at hxp; cases hxp
+
 theorem qsortAux_sorted (lt : α → α → Bool) (hst : StrictTotal lt) : ∀ (f : Nat) (xs : List α) (a n : Nat) (ys : List α),
     qsortAux lt f xs a n = some ys → (2 ≤ n → a + n ≤ xs.length) → Sub xs ys a (a + n) ∧ SortedR lt ys a (a + n) := by
   intro f
@@ -253,54 +272,73 @@ theorem qsortAux_sorted (lt : α → α → Bool) (hst : StrictTotal lt) : ∀ (
           (fun _ => ⟨⟨a + n / 2, by omega, by omega, hpiv.1⟩, ⟨a + n / 2, by omega, by omega, hpiv.2⟩⟩)
           (fun i x h1 h2 => by omega) (fun i x h1 h2 => by omega) (X, L, R) h1
         simp only [] at p1 p2 p3 p4 p5 p6 h
-        cases h2 : qsortAux lt f X a (R - a) with
-        | none => rw [h2] at h; simp at h
-        | some ys1 =>
-          rw [h2, Option.bind_some] at h
-          obtain ⟨s1, t1⟩ := ih X a (R - a) ys1 h2 (by intro _; rw [p1.1]; omega)
-          obtain ⟨s2, t2⟩ := ih ys1 L (a + n - L) ys h (by intro _; rw [s1.1, p1.1]; omega)
-          have eR : a + (R - a) = R := by omega
-          have eL : L + (a + n - L) = a + n := by omega
-          rw [eR] at s1 t1
-          rw [eL] at s2 t2
-          have hsub : Sub xs ys a (a + n) :=
-            (p1.trans (s1.mono (Nat.le_refl _) (by omega))).trans (s2.mono (by omega) (Nat.le_refl _))
-          -- positions below L are those of ys1, positions from R on in ys1 are those of X
-          have y_lo : ∀ i, i < L → ys[i]? = ys1[i]? := fun i hi => s2.2.1 i (Or.inl hi)
-          have y1_hi : ∀ i, R ≤ i → ys1[i]? = X[i]? := fun i hi => s1.2.1 i (Or.inr hi)
-          have hLe : LeP lt xs[a + n / 2] ys a L := by
-            intro i x h1 h2 hx
-            rw [y_lo i h2] at hx
-            by_cases hiR : i < R
-            · exact (LeP.of_sub (fun i x h1 h2 hx => p2 i x h1 (by omega) hx) s1) i x h1 hiR hx
-            · rw [y1_hi i (by omega)] at hx; exact p2 i x h1 h2 hx
-          have hGe : GeP lt xs[a + n / 2] ys R (a + n) := by
-            intro i x h1 h2 hx
-            by_cases hiL : i < L
-            · rw [y_lo i hiL, y1_hi i h1] at hx; exact p3 i x h1 h2 hx
-            · have g1 : GeP lt xs[a + n / 2] ys1 L (a + n) := by
-                intro k z k1 k2 hz
-                rw [y1_hi k (by omega)] at hz; exact p3 k z (by omega) k2 hz
-              exact (GeP.of_sub g1 s2) i x (by omega) h2 hx
-          have hSA : SortedR lt ys a R := by
-            intro i j x y h1 h2 h3 hx hy
-            rw [y_lo i (by omega)] at hx; rw [y_lo j (by omega)] at hy
-            exact t1 i j x y h1 h2 h3 hx hy
-          refine ⟨hsub, ?_⟩
-          intro i j x y h1 h2 h3 hx hy
-          by_cases hjR : j < R
-          · exact hSA i j x y h1 h2 hjR hx hy
-          · by_cases hiL : L ≤ i
-            · exact t2 i j x y hiL h2 h3 hx hy
-            · -- x ≤ p ≤ y
-              have hxp := hLe i x h1 (by omega) hx
-              have hyp := hGe j y (by omega) h3 hy
-              cases hyx : lt y x
-              · rfl
-              · rcases hst.tri x xs[a + n / 2] with h | h | h
-                · rw [hst.trans y x _ hyx h] at hyp; cases hyp
-                · rw [h] at hyx; rw [hyx] at hyp; cases hyp
-                · rw [h] at hxp; cases hxp
+        have eR : a + (R - a) = R := by omega
+        have eL : L + (a + n - L) = a + n := by omega
+        split at h
+        · -- smaller part on the left: quicksort(a, nl), then the loop goes on with [l, a+n)
+          cases h2 : qsortAux lt f X a (R - a) with
+          | none => rw [h2] at h; simp at h
+          | some ys1 =>
+            rw [h2, Option.bind_some] at h
+            obtain ⟨s1, t1⟩ := ih X a (R - a) ys1 h2 (by intro _; rw [p1.1]; omega)
+            obtain ⟨s2, t2⟩ := ih ys1 L (a + n - L) ys h (by intro _; rw [s1.1, p1.1]; omega)
+            rw [eR] at s1 t1
+            rw [eL] at s2 t2
+            have hsub : Sub xs ys a (a + n) :=
+              (p1.trans (s1.mono (Nat.le_refl _) (by omega))).trans (s2.mono (by omega) (Nat.le_refl _))
+            have y_lo : ∀ i, i < L → ys[i]? = ys1[i]? := fun i hi => s2.2.1 i (Or.inl hi)
+            have y1_hi : ∀ i, R ≤ i → ys1[i]? = X[i]? := fun i hi => s1.2.1 i (Or.inr hi)
+            have hLe : LeP lt xs[a + n / 2] ys a L := by
+              intro i x h1 h2 hx
+              rw [y_lo i h2] at hx
+              by_cases hiR : i < R
+              · exact (LeP.of_sub (fun i x h1 h2 hx => p2 i x h1 (by omega) hx) s1) i x h1 hiR hx
+              · rw [y1_hi i (by omega)] at hx; exact p2 i x h1 h2 hx
+            have hGe : GeP lt xs[a + n / 2] ys R (a + n) := by
+              intro i x h1 h2 hx
+              by_cases hiL : i < L
+              · rw [y_lo i hiL, y1_hi i h1] at hx; exact p3 i x h1 h2 hx
+              · have g1 : GeP lt xs[a + n / 2] ys1 L (a + n) := by
+                  intro k z k1 k2 hz
+                  rw [y1_hi k (by omega)] at hz; exact p3 k z (by omega) k2 hz
+                exact (GeP.of_sub g1 s2) i x (by omega) h2 hx
+            have hSA : SortedR lt ys a R := by
+              intro i j x y h1 h2 h3 hx hy
+              rw [y_lo i (by omega)] at hx; rw [y_lo j (by omega)] at hy
+              exact t1 i j x y h1 h2 h3 hx hy
+            exact ⟨hsub, sorted_join lt hst p4 hSA t2 hLe hGe⟩
+        · -- smaller part on the right: quicksort(l, nr), then the loop goes on with [a, a+nl)
+          cases h2 : qsortAux lt f X L (a + n - L) with
+          | none => rw [h2] at h; simp at h
+          | some ys1 =>
+            rw [h2, Option.bind_some] at h
+            obtain ⟨s1, t1⟩ := ih X L (a + n - L) ys1 h2 (by intro _; rw [p1.1]; omega)
+            obtain ⟨s2, t2⟩ := ih ys1 a (R - a) ys h (by intro _; rw [s1.1, p1.1]; omega)
+            rw [eL] at s1 t1
+            rw [eR] at s2 t2
+            have hsub : Sub xs ys a (a + n) :=
+              (p1.trans (s1.mono (by omega) (Nat.le_refl _))).trans (s2.mono (Nat.le_refl _) (by omega))
+            have y_hi : ∀ i, R ≤ i → ys[i]? = ys1[i]? := fun i hi => s2.2.1 i (Or.inr hi)
+            have y1_lo : ∀ i, i < L → ys1[i]? = X[i]? := fun i hi => s1.2.1 i (Or.inl hi)
+            have hLe : LeP lt xs[a + n / 2] ys a L := by
+              intro i x h1 h2 hx
+              by_cases hiR : i < R
+              · have g1 : LeP lt xs[a + n / 2] ys1 a R := by
+                  intro k z k1 k2 hz
+                  rw [y1_lo k (by omega)] at hz; exact p2 k z k1 (by omega) hz
+                exact (LeP.of_sub g1 s2) i x h1 hiR hx
+              · rw [y_hi i (by omega), y1_lo i h2] at hx; exact p2 i x h1 h2 hx
+            have hGe : GeP lt xs[a + n / 2] ys R (a + n) := by
+              intro i x h1 h2 hx
+              rw [y_hi i h1] at hx
+              by_cases hiL : i < L
+              · rw [y1_lo i hiL] at hx; exact p3 i x h1 h2 hx
+              · exact (GeP.of_sub (fun i x h1 h2 hx => p3 i x (by omega) h2 hx) s1) i x (by omega) h2 hx
+            have hSB : SortedR lt ys L (a + n) := by
+              intro i j x y h1 h2 h3 hx hy
+              rw [y_hi i (by omega)] at hx; rw [y_hi j (by omega)] at hy
+              exact t1 i j x y h1 h2 h3 hx hy
+            exact ⟨hsub, sorted_join lt hst p4 t2 hSB hLe hGe⟩
 
 /-- **`quicksort` sorts**: for a strict total order the result is in non-decreasing order -/
 theorem qsortList_sorted (lt : α → α → Bool) (hst : StrictTotal lt) {xs ys : List α} (h : qsortList lt xs = some ys) :
